@@ -16,15 +16,34 @@ class C43(Prop):
              "addSession, apiSessionsKick, cleanup, getMuxer): a media request is handed to the muxer only if a live "
              "session of THAT path, created by an admitted multivariant request from the same client IP, has the "
              "presented secret (cookie before query, compared after google/uuid Parse), or the request carries the "
-             "non-empty CDN secret and a live CDN session of that path exists. The model is tied to the code by running "
-             "generated histories through the real gin handler with real muxers and comparing inside Coq.",
-        note="Trusted: Coq kernel+VM; the in-package driver and its stub path manager; net/http cookie/query/header "
-             "accessors and gin ClientIP (their results are shipped per request); google/uuid Parse is modelled and "
-             "compared with the library on every raw secret. Session identities (uuid.New) are assumed pairwise distinct.",
+             "non-empty CDN secret and a live CDN session of that path exists. 'Client IP' is modelled from the wire: "
+             "the model contains gin's ClientIP / validateHeader / isTrustedProxy under the engine httpServer.initialize "
+             "builds (SetTrustedProxies(hlsTrustedProxies) always, also for the default empty list) and the theorems say "
+             "that with no trusted proxies the IP is the TCP peer's whatever headers the request carries, that a peer "
+             "outside the trusted networks cannot change any outcome through X-Forwarded-For / X-Real-Ip / "
+             "CF-Connecting-IP / any other header, and that behind honest trusted proxies (each appends its peer) the "
+             "client's own IP is recovered whatever X-Forwarded-For the client forged. The model is tied to the code by "
+             "running generated histories through the real gin handler with real muxers and comparing inside Coq; the "
+             "property itself is re-checked on the observations against the driver's ground truth of who sent each request.",
+        note="Trusted: Coq kernel+VM; the in-package driver, its stub path manager and its ground truth of request "
+             "origins; net/http cookie/query/header accessors, net.SplitHostPort / net.ParseIP / IP.String (their "
+             "results are shipped per request; gin's ClientIP itself is MODELLED, session.ip is compared with the "
+             "model's value on every created session); google/uuid Parse is modelled and compared with the library on "
+             "every raw secret. Session identities (uuid.New) are assumed pairwise distinct. strings.TrimSpace is "
+             "modelled on ASCII white space only; listening on a unix socket (gin then trusts every peer) is not modelled.",
         technique="Coq proof (invariant by induction over request/operation histories) + correspondence via vm_compute")
-    rule = ("one case = one history (20-45 operations) on a fresh hls.Server with 3 paths (one without stream), 3 client "
-            "IPs (direct, via trusted proxy X-Forwarded-For, or with a forged X-Forwarded-For), 3 credential identities "
-            "and a random permission table; secrets presented: right / other path's / other IP's / killed session's / "
+    rule = ("one case = one history (20-45 operations) on a fresh hls.Server with 3 paths (one without stream), 3 "
+            "credential identities, a random permission table and one of 6 network topologies (every one occurs in every "
+            "run): hlsTrustedProxies empty (the default; as empty list and as nil), one proxy given as bare IP, two "
+            "networks (/32 + /24), a /16 with clients on the adjacent addresses, IPv6 (::1/128 + fd00::/8); 3 clients "
+            "outside the trusted networks, proxies inside, other forwarding hosts outside. Requests arrive directly, "
+            "through 1-3 hops of trusted proxies (X-Forwarded-For appended with ', ' / ',' / as a second header line, "
+            "with or without X-Real-Ip; or odd proxies: X-Real-Ip only, X-Forwarded-For: unknown + X-Real-Ip, headers "
+            "stripped), through untrusted forwarders, with RemoteAddr that is not an IP; the originator may forge 1-3 of "
+            "X-Forwarded-For, X-Real-Ip, CF-Connecting-IP, X-Appengine-Remote-Addr, Fly-Client-IP, True-Client-IP, "
+            "X-Client-IP, Forwarded naming the session owner / an admitted client (plain, padded, in a list, "
+            "IPv4-mapped, upper-case IPv6, malformed); another client presenting the right secret with forged headers "
+            "and a non-admitted client naming an admitted one are generated on purpose; secrets presented: right / other path's / other IP's / killed session's / "
             "unknown, in 16 spellings (upper case, urn:uuid:, braces, junk-wrapped 38 bytes, no dashes, truncated, ...), "
             "in cookie, query, both, conflicting, empty or unparsable cookie, quoted first-of-two cookies; CDN header "
             "right/wrong/with empty configured secret; kick, expire (cleanup ticker), muxer close, path not ready, "
@@ -32,12 +51,15 @@ class C43(Prop):
             "history in which media was served; distinct = distinct histories")
     trusted_base = ["Coq 8.16.1 kernel + VM (vm_compute for cases)",
                     "in-package Go driver zz_verif_c43_test.go (stub path manager, request construction, session identity numbering)",
-                    "oracle: net/http Request.Cookie / URL.Query / Header.Get and gin ClientIP on each request",
+                    "oracle: net/http Request.Cookie / URL.Query / Header.Get / Header.Values, net.SplitHostPort + net.ParseIP + IP.String on RemoteAddr, net.ParseIP on every item of every forwarding header",
+                    "ground truth of the driver: which host originated each request (who), used by the property restated on observations",
                     "oracle: path manager admission = permission table of the case",
                     "model Model/C43_Hls.v hand-written, tied by correspondence (uuid.Parse model compared with google/uuid on every secret)"]
     assumptions = ["session identities drawn by uuid.New are pairwise distinct (Kick addresses one session)",
                    "requests are serialised (the model has no concurrent requests; the muxer map is mutex-protected in the code)",
-                   "SourceOnDemand=false on all paths (always-remux servers do not create on-demand muxers)"]
+                   "SourceOnDemand=false on all paths (always-remux servers do not create on-demand muxers)",
+                   "hosts configured in hlsTrustedProxies append the IP of their peer to X-Forwarded-For (C43_client_ip_honest_chain); clients are not inside trusted networks",
+                   "the server does not listen on a unix socket (gin would trust every peer)"]
 
 
 PROP = C43()
